@@ -150,6 +150,46 @@ Definition z_floordiv (tag a b : Z) : result Z := if b =? 0 then Err tag else Ok
 Definition z_mod (tag a b : Z) : result Z := if b =? 0 then Err tag else Ok (a mod b).
 (* truth value of an Optional[int]: None and 0 are false *)
 Definition opt_int_truthy (o : option Z) : bool := match o with Some n => negb (n =? 0) | None => false end.
+(* ---- additions for the parameter dicts of the posterior samples (core.Theta, models/sparse_combo*.py; C10 links) ---- *)
+(* a Python str: the list of its code points (the framework's wire convention, harness common.s2l) *)
+Definition pystr := list Z.
+Fixpoint str_eqb (a b : pystr) : bool :=
+  match a, b with
+  | [], [] => true
+  | x :: a', y :: b' => (x =? y) && str_eqb a' b'
+  | _, _ => false
+  end.
+(* a dict with STRING keys (`strdict T`): insertion-ordered association list *)
+Fixpoint sdict_get {V : Type} (d : list (pystr * V)) (k : pystr) : option V :=
+  match d with
+  | [] => None
+  | (k', v) :: r => if str_eqb k' k then Some v else sdict_get r k
+  end.
+(* k in d *)
+Definition sdict_mem {V : Type} (d : list (pystr * V)) (k : pystr) : bool :=
+  match sdict_get d k with Some _ => true | None => false end.
+(* d[k]: KeyError (Err tag) when the key is absent *)
+Definition sdict_read {V : Type} (tag : Z) (d : list (pystr * V)) (k : pystr) : result V :=
+  match sdict_get d k with Some v => Ok v | None => Err tag end.
+(* d[k] = v, and the entries of a dict display from the left: an existing key keeps its place and gets the new value,
+   a new key goes last *)
+Fixpoint sdict_set {V : Type} (d : list (pystr * V)) (k : pystr) (v : V) : list (pystr * V) :=
+  match d with
+  | [] => [(k, v)]
+  | (k', v') :: r => if str_eqb k' k then (k', v) :: r else (k', v') :: sdict_set r k v
+  end.
+(* F(..., **d): every key of d must be one of the parameter names the call site does not pass itself - any other key is
+   a TypeError (Err tag: an unexpected keyword argument, or multiple values for one) *)
+Definition sdict_only {V : Type} (tag : Z) (allowed : list pystr) (d : list (pystr * V)) : result unit :=
+  if forallb (fun kv => existsb (str_eqb (fst kv)) allowed) d then Ok tt else Err tag.
+(* ---- additions for data.py Screen.single_treatment_effects (C14 link) ---- *)
+(* try: <body> except E: <handler>, both ending in a return: an exception of the body that carries E's tag is replaced by the
+   handler's outcome, any other exception passes *)
+Definition res_catch {A : Type} (tag : Z) (body handler : result A) : result A :=
+  match body with
+  | Ok v => Ok v
+  | Err t => if t =? tag then handler else Err t
+  end.
 (* ---- additions for the argument-handling glue of the command-line wrappers (cli/argument_parsing.py, get_args) ---- *)
 (* `kdict K V`: a dict whose keys have a type with a boolean equality test (strings as code-point lists, type objects):
    insertion-ordered association list.  d[k] = v: an existing key keeps its place and gets the new value, a new key goes last *)
@@ -172,8 +212,8 @@ Definition kdict_get_default {K V : Type} (eqb : K -> K -> bool) (d : list (K * 
 (* `x or {}` / `x or []` on an Optional container, as a value: x's content when x is a container, the empty one for None
    (an empty x is replaced by a NEW empty container, which has the same content) *)
 Definition opt_or_empty {A : Type} (o : option (list A)) : list A := match o with Some l => l | None => [] end.
-(* try: B except E: H with E the exception class of the listed tags and H ending in a raise *)
-Definition res_catch {A : Type} (tags : list Z) (body handler : result A) : result A :=
+(* try: B except E: H with E the exception class of the LISTED tags and H ending in a raise (cfg["except_tag_lists"]) *)
+Definition res_catch_tags {A : Type} (tags : list Z) (body handler : result A) : result A :=
   match body with
   | Ok x => Ok x
   | Err t => if zmem t tags then handler else Err t
